@@ -117,9 +117,16 @@ def lookup(M):
 
 def _fresh_product(ra, rb):
     """fresh quaternion atoms for ra*rb with definitional + norm axioms"""
+    from . import polyred
     c = ctx()
     prod = quat_mul(ra.q, rb.q)
     prod_s = [z3.simplify(p) for p in prod]
+    if polyred.active(c):
+        try:
+            rw = polyred.Rewriter(c)
+            prod_s = [rw.rw(p) for p in prod_s]
+        except polyred.NotPolynomial:
+            pass
     # constant or already atomic components need no fresh atom
     if all(z3.is_rational_value(p) or (z3.is_const(p)) for p in prod_s):
         return Rot(prod_s, ra.sigma * rb.sigma)
@@ -128,9 +135,11 @@ def _fresh_product(ra, rb):
     names = [v.decl().name() for v in qs]
     for v, p in zip(qs, prod_s):
         c.axiom(v, v == p, "def")
+        polyred.register_def(c, v, p)
     n1 = norm2(qs) == 1
     for v in qs:
         c.axiom(v, n1, "cons")
+    polyred.unit_hyps_of(c).add(qs)
     return Rot(qs, ra.sigma * rb.sigma)
 
 
@@ -171,8 +180,10 @@ def _atomise(vec, name):
     out = []
     for v in vec:
         if isinstance(v, SymReal) and not z3.is_const(v.z) and _size(v.z) > 40:
+            from . import polyred
             f = c.fresh(name)
             c.axiom(f, f == v.z, "def")
+            polyred.register_def(c, f, v.z)
             out.append(SymReal(f))
         else:
             out.append(v)
